@@ -118,15 +118,18 @@ fn drive(
         eval::run_cases(ctx, eng, &format!("{sub}-generated"), vec![], slot, oracle);
         return;
     }
-    for chunk in gen_progs.chunks(CHUNK) {
+    let n_chunks = gen_progs.chunks(CHUNK).count();
+    for (ci, chunk) in gen_progs.chunks(CHUNK).enumerate() {
         let mut cases = vec![];
         for p in chunk {
             cases.extend(make_cases(p));
         }
+        // one slot per chunk (thorough tier), so that checks sharing a pool reuse each other's builds
+        let slot_c = if n_chunks > 1 { format!("{slot}-t{ci}") } else { slot.to_string() };
         // make sure the whole chunk is built even if some programs produced no case
-        eng.build_slot(slot, chunk);
-        stats.absorb(eng, slot, chunk);
-        eval::run_cases(ctx, eng, &format!("{sub}-generated"), cases, slot, oracle);
+        eng.build_slot(&slot_c, chunk);
+        stats.absorb(eng, &slot_c, chunk);
+        eval::run_cases(ctx, eng, &format!("{sub}-generated"), cases, &slot_c, oracle);
     }
     stats.finish(ctx);
 }
@@ -555,13 +558,15 @@ fn c41(ctx: &mut Ctx, eng: &mut Engine, pool: &Pool) {
     judge_all(ctx, eng, &specs);
     for (mode, slot) in [(gen::Mode::Safe, "gen-safe"), (gen::Mode::Tick, "gen-tick"), (gen::Mode::Wild, "gen-wild")] {
         let progs = gen_pool(ctx, mode);
-        for chunk in progs.chunks(CHUNK) {
-            eng.build_slot(slot, chunk);
-            if let Some(i) = eng.reports[slot].infra.clone() {
-                ctx.inconclusive(format!("{slot}: {i}"));
+        let n_chunks = progs.chunks(CHUNK).count();
+        for (ci, chunk) in progs.chunks(CHUNK).enumerate() {
+            let slot_c = if n_chunks > 1 { format!("{slot}-t{ci}") } else { slot.to_string() };
+            eng.build_slot(&slot_c, chunk);
+            if let Some(i) = eng.reports[&slot_c].infra.clone() {
+                ctx.inconclusive(format!("{slot_c}: {i}"));
                 return;
             }
-            stats.absorb(eng, slot, chunk);
+            stats.absorb(eng, &slot_c, chunk);
             judge_all(ctx, eng, chunk);
         }
     }
